@@ -1194,3 +1194,164 @@ func planParkWrite(rg *rand.Rand) (cfgT, runFn) {
 		return hdr, tags
 	}
 }
+
+// ---------------------------------------------------------------------------------------------
+// t7desel: the T7 dwell of the SECOND not-selected window. The session is selected through the
+// library's Select RESPONDER path (passive; or active with a simultaneous Select.req from the
+// peer), the peer deselects it d after TCP-up (d swept: 0.2, 0.5, 0.9, 1.5 x T7) and then stays
+// silent with the link open. From an instant taken BEFORE the Deselect.req is written: State()
+// stays NotSelected for at least T7 (exact lower bound) and the link is not closed before that;
+// then T7 takes effect (NotConnected, link closed by the library) within T7 + a generous slack.
+// Fifth variant: a re-Select half-way through the dwell cancels it (the session is held 1.2 x T7).
+// Waits are on events (responses, State() values, the link closing); the only sleeps are the
+// script's own stimulus times.
+
+var t7dSeq atomic.Int32
+
+func planT7Desel(rg *rand.Rand) (cfgT, runFn) {
+	k := int(t7dSeq.Add(1) - 1)
+	cfg := baseCfg(rg, (k/5)%2 == 1)
+	cfg.t7 = 400 * time.Millisecond
+	cfg.t6 = 3 * time.Second
+	cfg.backoff = 5 * time.Millisecond
+	variant := k % 5
+	factor := []float64{0.2, 0.5, 0.9, 1.5, 0.2}[variant]
+	d := time.Duration(factor * float64(cfg.t7))
+	reselect := variant == 4
+	const slack = 6 * time.Second
+	return cfg, func(e *env) (string, []string) {
+		hdr := fmt.Sprintf("active=%v T7=%v deselectAt=%v(%.1fxT7) reselect=%v buffered=%v", cfg.active, cfg.t7, d, factor, reselect, cfg.buffered)
+		tag := fmt.Sprintf("t7desel:active=%v:d=%.1f:reselect=%v", cfg.active, factor, reselect)
+		tags := []string{tag}
+		var p *peer
+		var t0 time.Time
+		if cfg.active {
+			e.setDial(func(n int, ctx context.Context) (net.Conn, error) {
+				if n == 0 {
+					return e.dialOK()
+				}
+				<-ctx.Done() // no second generation: keeps the outcome readable
+				return nil, ctx.Err()
+			})
+		}
+		if e.open(hsms.OpenBackground, 3*time.Second) != eOK {
+			e.anomaly("Open failed")
+			return hdr, tags
+		}
+		if cfg.active {
+			if p = e.nextPeer(stepWait); p == nil {
+				e.anomaly("the library did not dial")
+				return hdr, tags
+			}
+			t0 = p.born
+			req, ok := p.wait(stepWait, isST(stSelectReq))
+			if !ok {
+				e.anomaly("no Select.req")
+				return hdr, tags
+			}
+			// simultaneous select: the peer's own Select.req goes through the library's responder
+			// path first; the library's request is then answered "already active"
+			if peerSelect(e, p, 8100) != 0 {
+				e.anomaly("simultaneous Select.req not answered status 0")
+				return hdr, tags
+			}
+			_ = p.send(ctl(req.sid, 0, 1, stSelectRsp, req.sys))
+		} else {
+			if p, t0 = e.connect(stepWait); p == nil {
+				e.anomaly("the library did not accept")
+				return hdr, tags
+			}
+			if peerSelect(e, p, 8100) != 0 {
+				e.anomaly("Select.req not answered status 0")
+				return hdr, tags
+			}
+		}
+		if !e.waitState(2, stepWait) {
+			e.anomaly("not Selected")
+			return hdr, tags
+		}
+		time.Sleep(time.Until(t0.Add(d)))
+		if e.state() != 2 || p.isDead() {
+			e.sample("t7desel-before-deselect")
+			e.failf("check5: a session selected through the responder path was disconnected before the peer deselected it (T7 armed at TCP-up)")
+			return hdr, tags
+		}
+		tD := time.Now() // BEFORE the Deselect.req is written: lower-bound base
+		if st := peerDeselect(e, p, 8200); st != 0 {
+			e.anomaly("Deselect.req answered status %d", st)
+			return hdr, tags
+		}
+		if !e.waitState(1, stepWait) {
+			if e.state() == 0 {
+				e.note("NotConnected %v after the Deselect.req", time.Since(tD))
+				e.failf("timer: a deselected session (NotSelected on the same TCP connection) was disconnected before T7 had elapsed since the Deselect.req")
+			} else {
+				e.anomaly("not NotSelected after Deselect.rsp(0)")
+			}
+			return hdr, tags
+		}
+		e.note("deselected %v after TCP-up", tD.Sub(t0).Round(time.Millisecond))
+		if reselect {
+			time.Sleep(time.Until(tD.Add(cfg.t7 / 2)))
+			st := peerSelect(e, p, 8300)
+			if st != 0 {
+				if el := time.Since(tD); p.isDead() && el < cfg.t7 {
+					e.note("link closed %v after the Deselect.req", el)
+					e.failf("timer: a deselected session (NotSelected on the same TCP connection) was disconnected before T7 had elapsed since the Deselect.req")
+				} else {
+					e.anomaly("re-Select answered %d", st)
+				}
+				return hdr, tags
+			}
+			end := time.Now().Add(cfg.t7 * 12 / 10)
+			for time.Now().Before(end) {
+				if s := e.state(); s != 2 || p.isDead() {
+					e.r.add('S', s, 0, "t7desel-hold")
+					e.failf("check5: a re-Select inside the T7 dwell that followed a Deselect did not keep the session (disconnected within 1.2*T7 of the re-Select, peer idle)")
+					return hdr, tags
+				}
+				time.Sleep(500 * time.Microsecond)
+			}
+			tags = append(tags, "t7desel:verdict")
+			e.quiesce(2, "last=select:0 (re-Select inside the dwell) held 1.2*T7")
+			e.closeConn()
+			e.postClose(3 * time.Millisecond)
+			return hdr, tags
+		}
+		// the dwell: NotSelected until T7 after tD, then NotConnected
+		deadline := tD.Add(cfg.t7 + slack)
+		for {
+			s := e.state()
+			now := time.Now() // taken AFTER the observation: never earlier than the change
+			if s != 1 {
+				e.r.add('S', s, 0, "t7desel-left-NotSelected")
+				if el := now.Sub(tD); el < cfg.t7 {
+					e.note("State()=%d %v after the Deselect.req (TCP-up %v before it)", s, el, tD.Sub(t0).Round(time.Millisecond))
+					e.failf("timer: a deselected session (NotSelected on the same TCP connection) was disconnected before T7 had elapsed since the Deselect.req")
+					return hdr, tags
+				}
+				break
+			}
+			if now.After(deadline) {
+				e.note("still NotSelected %v after the Deselect.req", now.Sub(tD))
+				e.failf("timer: T7 never took effect in the not-selected window that followed a Deselect (still NotSelected T7+6s after the Deselect.req, peer silent, link open)")
+				return hdr, tags
+			}
+			time.Sleep(200 * time.Microsecond)
+		}
+		if !p.waitDead(slack) {
+			e.failf("timer: T7 expiry after a Deselect did not close the link")
+			return hdr, tags
+		}
+		if el := p.deadTime().Sub(tD); el < cfg.t7 {
+			e.note("link closed %v after the Deselect.req", el)
+			e.failf("timer: a deselected session (NotSelected on the same TCP connection) was disconnected before T7 had elapsed since the Deselect.req")
+			return hdr, tags
+		}
+		tags = append(tags, "t7desel:verdict")
+		e.quiesce(0, "last=t7-drop after deselect")
+		e.closeConn()
+		e.postClose(3 * time.Millisecond)
+		return hdr, tags
+	}
+}
